@@ -13,6 +13,9 @@ import sys
 from ..core import MachineryError
 
 EPSG = {"A": 4326, "B": 3857, "C": 3577}
+CUSTOM = {"D": "+proj=laea +lat_0=52 +lon_0=10 +x_0=0 +y_0=0 +ellps=GRS80 +units=m +no_defs",
+          "E": "+proj=sinu +lon_0=0 +x_0=0 +y_0=0 +R=6371007.181 +units=m +no_defs",
+          "F": "+proj=laea +lat_0=40 +lon_0=-5 +x_0=0 +y_0=0 +ellps=GRS80 +units=m +no_defs"}
 HERE = os.path.dirname(os.path.dirname(os.path.dirname(os.path.abspath(__file__))))
 
 
@@ -24,6 +27,10 @@ def _crs(tag, memo):
     cls, sp = tag
     if cls == "none":
         return None
+    if cls in CUSTOM:                    # systems without an EPSG code: the lazy code lookup answers "none" for each of them
+        p = CUSTOM[cls]
+        return {"proj": lambda: CRS(p), "pyproj": lambda: CRS(pyproj.CRS(p)), "wkt": lambda: CRS(pyproj.CRS(p).to_wkt()),
+                "crsobj": lambda: CRS(CRS(p)), "pickle": lambda: pickle.loads(pickle.dumps(CRS(p)))}[sp]()
     code = EPSG[cls]
     if sp == "int":
         return CRS(code)
@@ -225,7 +232,7 @@ def family_events(case):
             if objs[i] is None or objs[j] is None or i == j:
                 eq[i][j] = i == j
                 continue
-            ev = {"kind": "pair", "fam": case["fam"], "di": descs[i], "dj": descs[j], "outcome": "ok", "eq_ij": False, "eq_ji": False,
+            ev = {"kind": "pair", "fam": case["fam"], "_ij": (i, j), "di": descs[i], "dj": descs[j], "outcome": "ok", "eq_ij": False, "eq_ji": False,
                   "ne_ij": True, "hashable": hashes[i] is not None and hashes[j] is not None, "hash_eq": False, "tok_eq": False}
             try:
                 ev["eq_ij"] = bool(objs[i] == objs[j])
@@ -239,6 +246,27 @@ def family_events(case):
             if i < j or ev["eq_ij"] != eq[j][i]:
                 events.append(ev)
     events.append({"kind": "trans", "fam": case["fam"], "eq": eq})
+    # ---- the same matrix once every object has been used (views read, lazy lookups done): a pair is as equal as it was before anybody looked
+    for o in objs:
+        if o is not None:
+            _use(o)
+    ueq = [[i == j for j in range(n)] for i in range(n)]
+    for i in range(n):
+        for j in range(n):
+            if objs[i] is None or objs[j] is None or i == j:
+                continue
+            try:
+                ueq[i][j] = bool(objs[i] == objs[j])
+            except Exception:  # noqa: BLE001
+                ueq[i][j] = "raised"
+    for ev in events:
+        if ev["kind"] == "pair":
+            i, j = ev.pop("_ij")
+            ev["ueq_ij"], ev["ueq_ji"] = ueq[i][j], ueq[j][i]
+            try:
+                ev["uhash_eq"] = (hash(objs[i]) == hash(objs[j])) if ev["hashable"] else True
+            except Exception:  # noqa: BLE001
+                ev["uhash_eq"] = False
     return events
 
 
